@@ -23,7 +23,19 @@ FAULTS = ["none", "none", "flip_ct", "flip_tag", "flip_aad", "flip_nonce", "trun
           "ext_tag", "trunc_ct", "ext_ct", "reframe", "rotate", "zero_tag", "swap_tag", "swap_ct", "swap_aad",
           "swap_nonce", "block_swap", "block_swap_pow2", "drop_aad"]
 KW_FAULTS = ["none", "none", "flip_ct", "trunc8", "ext8", "rotate8", "splice", "craft_icv", "craft_len", "craft_pad", "trunc1"]
-PATHS = ["dav", "dav", "split", "split_hex", "dav_out", "split_out", "split_alias", "dav_alias", "verify_twice"]
+PATHS = ["dav", "dav", "split", "split_hex", "dav_out", "split_out", "split_alias", "dav_alias", "verify_twice", "pieces", "pieces",
+         "pieces_refused"]
+STYLES = ["oneshot", "oneshot", "oneshot", "stream", "stream", "stream_refused"]
+
+
+class FailStop(Exception):
+    """A legitimate call raised after a call the object had refused: the object stopped working (tolerated), it did not
+    silently produce something else."""
+
+
+def _pieces(salt, total, maxp=6):
+    from ..util import Rng, partition
+    return partition(Rng(salt), total, max_parts=maxp, hot=(16, 32, 64, 128))
 
 
 def kw_W(ecb, pt):
@@ -106,6 +118,8 @@ class Machine(object):
         cfg = F.gen_cipher_cfg(rng, fam)
         if fam == "ChaCha20-Poly1305" and rng.random() < 0.3:
             cfg["nonce"][1] = 24
+        if cfg.get("alg") == "ARC2" and rng.random() < 0.7:
+            cfg["ekl"] = rng.choice([40, 41, 64, 127, 128, 1000, 1023])      # a cipher parameter that changes the permutation
         nl = cfg["nonce"][1] if cfg.get("nonce") else 0
         recs = []
         for i in range(rng.randrange(1, 6)):
@@ -116,7 +130,8 @@ class Machine(object):
                 n = rng.choice([4096, 8192, 8192 + 16, 5000])
             else:
                 n = rng.choice([65536, 65536 + 16, 65536 + 32, 70000]) if fam in ("OCB", "GCM", "EAX") else 20000
-            rec = {"pt": [s + 10 + i, n], "nonce": [s + 100 + i, nl] if nl else None}
+            rec = {"pt": [s + 10 + i, n], "nonce": [s + 100 + i, nl] if nl else None, "style": rng.choice(STYLES),
+                   "salt": rng.randrange(1 << 30)}
             if fam == "SIV":
                 rec["aad"] = [[s + 200 + 10 * i + j, pick_size(rng, cap=80)] for j in range(rng.randrange(0, 4))]
             else:
@@ -144,7 +159,7 @@ class Machine(object):
             return self.run_kw(case, ctx)
         return self.run_aead(case, ctx)
 
-    def _new(self, cfg, nonce):
+    def _new(self, cfg, nonce, **extra):
         c = dict(cfg)
         if cfg.get("nonce") is not None and nonce is not None:
             m = F.mod(cfg["alg"])
@@ -154,6 +169,9 @@ class Machine(object):
             kw = {"nonce": nonce}
             if "mac_len" in cfg:
                 kw["mac_len"] = cfg["mac_len"]
+            if "ekl" in cfg:
+                kw["effective_keylen"] = cfg["ekl"]
+            kw.update(extra)
             return m.new(F.cipher_key(cfg), getattr(m, "MODE_" + fam), **kw)
         return F.make_cipher(c)
 
@@ -168,6 +186,74 @@ class Machine(object):
                 c.update(a)
         return c.encrypt_and_digest(pt)
 
+    # calls the object must refuse because of their arguments; whatever they raise, they are not part of the message
+    def _refused_call(self, ctx, c, fam, which, piece, direction):
+        fn = getattr(c, direction)
+        try:
+            if which == 0:
+                c.update(u"text \u00e9")
+            elif which == 1:
+                fn(piece, output=bytearray(len(piece) + 1))
+            elif which == 2:
+                fn(u"text")
+            elif which == 3:
+                fn(piece, output=bytes(len(piece)))
+            else:
+                fn(piece, output=bytearray(max(0, len(piece) - 1)) if piece else bytearray(3))
+        except (TypeError, ValueError):
+            ctx.fault("api.refused_call")
+            return True
+        return False            # not refused: the history is no longer the one the model describes
+
+    def _seal_stream(self, ctx, cfg, nonce, aad, pt, salt, refused):
+        """The sender streams: associated data and plaintext in pieces (empty pieces included), optionally with calls the
+        object refuses (wrong argument type, wrong output size) in between.  Returns (ct, tag), or None when the
+        history left the model (a 'refused' call was in fact accepted) or the object failed safe."""
+        from ..util import Rng
+        fam = cfg["fam"]
+        rng = Rng(salt)
+        a = b"".join(aad)
+        extra = {}
+        if fam == "CCM":
+            extra = {"msg_len": len(pt), "assoc_len": len(a)}
+        c = self._new(cfg, nonce, **extra)
+        after_refusal = False
+
+        def legit(f, *args, **kw):
+            try:
+                return f(*args, **kw)
+            except (TypeError, ValueError):
+                if after_refusal:
+                    raise FailStop()
+                raise
+        try:
+            off = 0
+            for n in _pieces(salt, len(a)):
+                if refused and rng.random() < 0.3:
+                    if not self._refused_call(ctx, c, fam, 0, b"", "encrypt"):
+                        return None
+                    after_refusal = True
+                legit(c.update, a[off:off + n])
+                off += n
+            out = []
+            off = 0
+            for n in _pieces(salt + 1, len(pt)):
+                piece = pt[off:off + n]
+                if refused and rng.random() < 0.4:
+                    if not self._refused_call(ctx, c, fam, rng.randrange(1, 5), piece, "encrypt"):
+                        return None
+                    after_refusal = True
+                out.append(legit(c.encrypt, piece))
+                off += n
+            if fam == "OCB":
+                out.append(legit(c.encrypt))
+            tag = legit(c.digest)
+        except FailStop:
+            ctx.probe("sender_failed_safe_after_refused_call")
+            return None
+        ctx.probe("sender_streamed" + ("_with_refused_calls" if after_refusal else ""))
+        return b"".join(out), tag
+
     def _spec(self, cfg, nonce, aad, pt):
         from ..refs import aead as RA
         fam = cfg["fam"]
@@ -178,7 +264,7 @@ class Machine(object):
         if fam == "CCM":
             return RA.ccm(m, key, nonce, a, pt, cfg["mac_len"])
         if fam == "EAX":
-            return RA.eax(m, key, nonce, a, pt, cfg["mac_len"])
+            return RA.eax(m, key, nonce, a, pt, cfg["mac_len"], **({"effective_keylen": cfg["ekl"]} if "ekl" in cfg else {}))
         if fam == "GCM":
             return RA.gcm(m, key, nonce, a, pt, cfg["mac_len"]) if size <= 20000 else None
         if fam == "OCB":
@@ -236,7 +322,17 @@ class Machine(object):
             nonce = F.D(r["nonce"]) if r.get("nonce") else None
             aad = [F.D(a) for a in r["aad"]]
             pt = F.D(r["pt"])
-            ct, tag = self._seal(cfg, nonce, aad, pt)
+            style = r.get("style", "oneshot")
+            res = None
+            if style != "oneshot" and fam != "SIV":
+                res = self._seal_stream(ctx, cfg, nonce, aad, pt, r.get("salt", 0), style == "stream_refused")
+                if res is not None and res != self._seal(cfg, nonce, aad, pt):
+                    ctx.violate("aead/%s/sender-history:%s" % (fam, style),
+                                "a sender that streamed its data in pieces%s produced another (ciphertext, tag) than the one-shot call "
+                                "(AAD %d bytes, message %d bytes)" % (" with refused calls in between" if style == "stream_refused" else "",
+                                                                     sum(len(x) for x in aad), len(pt)),
+                                observed=(res[0][:16].hex(), res[1].hex()), expected="the tuple of encrypt_and_digest")
+            ct, tag = res if res is not None else self._seal(cfg, nonce, aad, pt)
             sent.append({"nonce": nonce, "aad": aad, "ct": ct, "tag": tag, "pt": pt})
             # the sender's output against an independent construction of the mode over the classic primitives
             ref = self._spec(cfg, nonce, aad, pt)
@@ -327,6 +423,8 @@ class Machine(object):
             ref_ok, ref_pt = self.reference_accepts(cfg, nonce, aad, ct, tag)
             # ---- the receiver
             accepted, got = self._receive(ctx, cfg, nonce, aad, ct, tag, path, salt)
+            if accepted is None:
+                continue            # the receiver's object failed safe after a refused call (or the call was not refused)
             ctx.obs(fault, path, accepted)
             ctx.state((fam, fault, path if path in ("dav", "split") else "other", accepted))
             label = "%s/%s" % (fam, fault)
@@ -397,6 +495,10 @@ class Machine(object):
                 c.decrypt(buf, output=buf)
                 c.verify(tag)
                 return True, bytes(buf)
+            if path in ("pieces", "pieces_refused") and fam != "SIV":
+                return self._receive_pieces(ctx, cfg, nonce, aad, ct, tag, salt, path == "pieces_refused")
+            if path in ("pieces", "pieces_refused"):
+                path = "dav"
             if path == "dav":
                 return True, c.decrypt_and_verify(ct, tag)
             if path == "dav_out":
@@ -442,6 +544,59 @@ class Machine(object):
         except Exception as e:
             ctx.violate("aead/%s/exception:%s" % (fam, type(e).__name__), "receiver raised %r (path %s, tag %d bytes)" % (e, path, len(tag)),
                         observed=repr(e), expected="ValueError or plaintext")
+
+    def _receive_pieces(self, ctx, cfg, nonce, aad, ct, tag, salt, refused):
+        """Streamed receiver: AAD and ciphertext in pieces (empty ones included), optionally with refused calls in between."""
+        from ..util import Rng
+        fam = cfg["fam"]
+        rng = Rng(salt + 7)
+        a = b"".join(aad)
+        extra = {"msg_len": len(ct), "assoc_len": len(a)} if fam == "CCM" else {}
+        c = self._new(cfg, nonce, **extra)
+        after_refusal = [False]
+
+        def legit(f, *args):
+            try:
+                return f(*args)
+            except (TypeError, ValueError):
+                if after_refusal[0]:
+                    raise FailStop()
+                raise
+        try:
+            off = 0
+            for n in _pieces(salt + 2, len(a)):
+                if refused and rng.random() < 0.3:
+                    if not self._refused_call(ctx, c, fam, 0, b"", "decrypt"):
+                        return None, None
+                    after_refusal[0] = True
+                legit(c.update, a[off:off + n])
+                off += n
+            out = []
+            off = 0
+            for n in _pieces(salt + 3, len(ct)):
+                piece = ct[off:off + n]
+                if refused and rng.random() < 0.4:
+                    if not self._refused_call(ctx, c, fam, rng.randrange(1, 5), piece, "decrypt"):
+                        return None, None
+                    after_refusal[0] = True
+                out.append(legit(c.decrypt, piece))
+                off += n
+            if fam == "OCB":
+                out.append(legit(c.decrypt))
+        except FailStop:
+            ctx.probe("receiver_failed_safe_after_refused_call")
+            return None, None
+        try:
+            c.verify(tag)
+        except ValueError:
+            if after_refusal[0]:
+                # fail-closed: several modes let the MAC absorb a piece before the inner cipher refuses the call's other
+                # arguments, and then reject whatever follows.  Tolerated (nothing wrong is accepted or returned).
+                ctx.probe("receiver_rejected_after_refused_call")
+                return None, None
+            return False, None
+        ctx.probe("receiver_streamed" + ("_with_refused_calls" if after_refusal[0] else ""))
+        return True, b"".join(out)
 
     # --------------------------------------------------------------- KW/KWP
     def run_kw(self, case, ctx):
